@@ -1,3 +1,4 @@
+(* deps: runwire.ml *)
 (* Model driver for the runner family (C13 lock discipline, C14 protocol).
    Reads the harness output (harness/runner): one logged implementation trace per TR line, plus
    whole-node check lines (WN / RUN), Run-level traces (RN) and the stress line (ST).
@@ -741,4 +742,7 @@ let gen () =
   close_out oc;
   Printf.printf "GEN states=%d transitions=%d depth=%d written=%d toggles=%d\n" (Hashtbl.length seen) n !depth !written (List.length !prio_list)
 
-let () = if Array.length Sys.argv > 1 && Sys.argv.(1) = "gen" then gen () else iter_lines handle
+let () =
+  if Array.length Sys.argv > 1 && Sys.argv.(1) = "gen" then gen ()
+  else if Array.length Sys.argv > 1 && Sys.argv.(1) = "wire" then Runwire.run ()
+  else iter_lines handle
